@@ -237,7 +237,8 @@ def grid_requests(rng, tier, client=1):
     methods = ["GET", "POST", "PUT", "DELETE", "HEAD", "PATCH"]
     cids = ["absent"] + [f"{f}={client}" for f in BAD_CID_FORMS] + [f"{f}={client}" for f in ("hyph", "upper", "simple", "braced", "urn")] + ["hyph=fresh"]
     segs = [f"{f}=latest:{client}" for f in BAD_ID_FORMS] + [f"{f}=latest:{client}" for f in ("hyph", "upper", "simple", "braced", "urn")] + ["hyph=nil", "hyph=fresh"]
-    cts = ["history", "history-param", "snapshot", "snapshot-param", "history-upper", "other", "prefix", "empty", "absent"]
+    cts = ["history", "history-param", "snapshot", "snapshot-param", "history-upper", "other", "prefix", "empty", "absent",
+           "snapshot-prefix", "snapshot-suffix", "snapshot-trunc", "history-trunc", "snapshot-upper", "history-in-param"]
     bodies = ["e", "e1", "b:1", "r:70", "chunks:1,1", "chunks:30,40,50"]
     reqs = []
     full = tier == "thorough"
